@@ -33,6 +33,7 @@ type f9piece struct {
 }
 
 func checkC09(c *Checker) {
+	depthInvariant(c, "C09-D0")
 	c.rule("C09-G0", "shape: the kernel value is a chain of monotone float steps over the sample on every piece and the pieces partition the code range", 22)
 	c.rule("C09-G1", "range and reference levels: images of the lowest / zero-amplitude / highest code are exactly -1 / 0 / 1 (monotone pieces keep everything else inside [-1,1])", 22)
 	c.rule("C09-G2", "order: pieces monotone non-decreasing, images ordered at every piece boundary", 22)
@@ -78,7 +79,7 @@ func checkC09(c *Checker) {
 			}
 			k, err := c.extractKernel(fn, ds, dd)
 			if err != nil {
-				c.undecided("C09-G0", inst, p, err.Error())
+				c.e4report("C09-G0", inst, p, err)
 				continue
 			}
 			mn, mx := ks.minMax()
@@ -314,6 +315,7 @@ func nextAfter(v float64, up bool, k numKind) float64 {
 }
 
 func checkC08(c *Checker) {
+	depthInvariant(c, "C08-D0")
 	c.rule("C08-F1", "no wrap: every float->integer conversion in the kernel (including overflow probes) has an operand whose interval under the path condition lies inside the destination type's range; integer arithmetic after it stays in range", 22)
 	c.rule("C08-F2", "clipping: the pieces cover [-Inf,+Inf]; on [1,+Inf] the highest code is stored, on [-Inf,-1] the lowest", 22)
 	c.rule("C08-F3", "linear map: inner pieces store conv(f*K) (+offset) with K = 2^(d-1)-1 for f > 0 and K = 2^(d-1) for f < 0, one truncation; zero maps to the zero-amplitude code", 22)
@@ -355,7 +357,7 @@ func checkC08(c *Checker) {
 			}
 			k, err := c.extractKernel(fn, ds, dd)
 			if err != nil {
-				c.undecided("C08-F1", inst, p, err.Error())
+				c.e4report("C08-F1", inst, p, err)
 				continue
 			}
 			var ps []f8piece
